@@ -179,7 +179,7 @@ def gen_plan(seed, tier):
       calib_invalid_p=0.3, extras_p=0.2,
       weights=dict(query=6, refit=22, threshold=5, calibrate=45, sweep=0, handout=0, mutate=0,
                    restart=4, clone=2, ambient=2, eigsh=0, set_nondata=0, failfit=0,
-                   fault=0, new=10, swap_pre=10), view_p=0.35)
+                   fault=0, new=10, swap_pre=10), view_p=0.35, one_class_p=0.1)
 
 
 def run_plan(plan):
